@@ -19,7 +19,9 @@ Cand(h, fill) ==
            bs == IF Ls.ok THEN {f.h0 + f.pad + Ls.n +
                                  (IF f.vbr THEN SumSeq(Ls.vals) ELSE f.M * Ls.vals[1])} ELSE {}
        IN UNION { {b - 1, b, b + 1, b + mult - 1, b + mult, b + mult + 1,
-                   b + 1275 * mult - 1, b + 1275 * mult, b + 1275 * mult + 1, b + 1276 * mult} : b \in bn }
+                   b + 1275 * mult - 1, b + 1275 * mult, b + 1275 * mult + 1, b + 1276 * mult,
+                   \* implicit sizes that wrap to a small or negative 16-bit value must stay rejected
+                   b + 32768 * mult, b + 65536 * mult, b + 65546 * mult, b + 66811 * mult, b + 131082 * mult} : b \in bn }
           \cup UNION { {b - 1, b, b + 1, b + 5} : b \in bs }
 
 
